@@ -244,6 +244,19 @@ class Roles:
                                 and isinstance(m.func.value.value, ast.Name) \
                                 and m.func.value.value.id in (n.target.id, outer):
                             return m.func.value.attr, self._builder_of(f)
+                        # ... or through an accessor of the job class: r._add_successor(j), whose body is
+                        # `self.<A>.add(job)`
+                        if isinstance(m, ast.Call) and isinstance(m.func, ast.Attribute) \
+                                and isinstance(m.func.value, ast.Name) and m.func.value.id in (n.target.id, outer) \
+                                and len(m.args) == 1:
+                            g = self.prog.supplier(self.jobbase, m.func.attr)
+                            if g is not None and len(g.params) == 2:
+                                for k in walk_local(g.node):
+                                    if isinstance(k, ast.Call) and isinstance(k.func, ast.Attribute) \
+                                            and k.func.attr in ('add', 'update') and isinstance(k.func.value, ast.Attribute) \
+                                            and isinstance(k.func.value.value, ast.Name) and k.func.value.value.id == 'self' \
+                                            and k.args and isinstance(k.args[0], ast.Name) and k.args[0].id == g.params[1]:
+                                        return k.func.value.attr, self._builder_of(f)
         # the linking loop has another shape: the reverse attribute is still the one the queries name next to
         # `required` when they call the step helper, and the builder the scheduler method that writes it
         lits = set()
@@ -360,6 +373,12 @@ class Roles:
         for s in self.BROADCAST.node.body:
             if isinstance(s, ast.If):
                 t = s.test
+                # `if self.flag:` - also spelt `self.flag is True`, `self.flag == True`, `self.flag is not False`
+                if isinstance(t, ast.Compare) and len(t.ops) == 1 and isinstance(t.comparators[0], ast.Constant) \
+                        and isinstance(t.comparators[0].value, bool) and (
+                            (isinstance(t.ops[0], (ast.Is, ast.Eq)) and t.comparators[0].value is True) or
+                            (isinstance(t.ops[0], (ast.IsNot, ast.NotEq)) and t.comparators[0].value is False)):
+                    t = t.left
                 if isinstance(t, ast.Attribute) and isinstance(t.value, ast.Name) and t.value.id == 'self' \
                         and any(isinstance(b, ast.Return) for b in s.body):
                     return t.attr
